@@ -19,7 +19,7 @@ EXTENDS Tokenizer
 
 CONSTANTS MaxMsgs, Mode
 
-Items == << <<145, 60, 100>>, <<193, 5>>, <<240, 9, 247>>, <<248>> >>
+Items == << <<145, 60, 100>>, <<193, 5>>, <<240, 9, 247>>, <<248>>, <<254>> >>
 
 VARIABLES stream, cut, sent, peerclosed, rcv, status, buf, q, closed,
           delivered, phase, acts, polls
